@@ -54,7 +54,7 @@ fn body(c: &Case, ch: &Chooser) -> Outcome {
     let (trace, invocations, model_trace, model_inv) = rt.block_on(async move {
         let c = c2;
         let (st, rx) = vnet::connector_state(c.initial, c.delayed, c.chop);
-        let script = Script { initial_md: vec![], msgs: vec![vec![42]], end: None, handler_err: false, bidi: BidiMode::Ignore, disable_compression: false };
+        let script = Script { initial_md: vec![], msgs: vec![vec![42]], end: None, handler_err: false, bidi: BidiMode::Ignore, disable_compression: false, exact_hint: false };
         let (server, _log) = new_server(script, &ch2, false);
         let srv = tokio::spawn(async move {
             let _ = Server::builder().add_service(server).serve_with_incoming(vnet::incoming(rx)).await;
@@ -215,6 +215,137 @@ fn scripts(maxlen: usize) -> Vec<Vec<Ev>> {
     out
 }
 
+// ---------------------------------------------------------------------------------------------
+// balanced channels: endpoints come and go through the discovery channel
+//
+// `Channel::balance_channel` connects every inserted endpoint with tonic's own TCP connector, so
+// this section has to use real loopback sockets and real time: two tonic servers on 127.0.0.1
+// (process-wide), and per execution a fresh balanced channel driven through one discovery history.
+
+#[derive(Clone, Copy, Debug, PartialEq, Eq)]
+enum BalOp {
+    Insert(usize),
+    Remove(usize),
+    Call,
+}
+
+#[derive(Clone, Debug)]
+struct BalCase {
+    first: BalOp,
+    depth: usize,
+}
+
+fn backends() -> [u16; 2] {
+    static PORTS: std::sync::OnceLock<[u16; 2]> = std::sync::OnceLock::new();
+    *PORTS.get_or_init(|| {
+        let (tx, rx) = std::sync::mpsc::channel::<Result<[u16; 2], String>>();
+        std::thread::spawn(move || {
+            let rt = match tokio::runtime::Builder::new_current_thread().enable_all().build() {
+                Ok(rt) => rt,
+                Err(e) => {
+                    let _ = tx.send(Err(format!("backend runtime: {e}")));
+                    return;
+                }
+            };
+            rt.block_on(async move {
+                let mut ports = [0u16; 2];
+                for p in ports.iter_mut() {
+                    let l = match tokio::net::TcpListener::bind("127.0.0.1:0").await {
+                        Ok(l) => l,
+                        Err(e) => {
+                            let _ = tx.send(Err(format!("cannot bind a loopback listener: {e}")));
+                            return;
+                        }
+                    };
+                    *p = l.local_addr().map(|a| a.port()).unwrap_or(0);
+                    let script = Script { initial_md: vec![], msgs: vec![vec![42]], end: None, handler_err: false, bidi: BidiMode::Ignore, disable_compression: false, exact_hint: false };
+                    let (server, _log) = new_server(script, &Chooser::detached(), false);
+                    let incoming = tokio_stream::wrappers::TcpListenerStream::new(l);
+                    tokio::spawn(async move {
+                        let _ = Server::builder().add_service(server).serve_with_incoming(incoming).await;
+                    });
+                }
+                let _ = tx.send(Ok(ports));
+                std::future::pending::<()>().await
+            });
+        });
+        match rx.recv_timeout(Duration::from_secs(30)) {
+            Ok(Ok(p)) => p,
+            Ok(Err(e)) => crate::explore::machinery(e),
+            Err(_) => crate::explore::machinery("loopback backends did not start".to_string()),
+        }
+    })
+}
+
+fn bal_menu(live: &[bool; 2]) -> Vec<BalOp> {
+    let mut m = vec![BalOp::Insert(0), BalOp::Insert(1), BalOp::Remove(0), BalOp::Remove(1)];
+    if live.iter().any(|l| *l) {
+        m.push(BalOp::Call);
+    }
+    m
+}
+
+fn bal_body(c: &BalCase, ch: &Chooser) -> Outcome {
+    let ports = backends();
+    let rt = tokio::runtime::Builder::new_current_thread().enable_all().build().unwrap_or_else(|e| crate::explore::machinery(format!("runtime: {e}")));
+    let c = c.clone();
+    let ch = ch.clone();
+    let (trace, bad) = rt.block_on(async move {
+        let (channel, tx) = tonic::transport::Channel::balance_channel::<usize>(16);
+        let mut live = [false; 2];
+        let mut trace: Vec<String> = vec![];
+        let mut bad: Option<(String, String)> = None;
+        for d in 0..c.depth {
+            let m = bal_menu(&live);
+            let op = if d == 0 { c.first } else { m[ch.pick(m.len())] };
+            match op {
+                BalOp::Insert(k) => {
+                    let ep = Endpoint::from_shared(format!("http://127.0.0.1:{}", ports[k])).unwrap_or_else(|e| crate::explore::machinery(format!("endpoint: {e}")));
+                    let _ = tx.send(tonic::transport::channel::Change::Insert(k, ep)).await;
+                    live[k] = true;
+                    trace.push(format!("Insert({k})"));
+                }
+                BalOp::Remove(k) => {
+                    let _ = tx.send(tonic::transport::channel::Change::Remove(k)).await;
+                    live[k] = false;
+                    trace.push(format!("Remove({k})"));
+                }
+                BalOp::Call => {
+                    let mut client = EchoClient::new(channel.clone());
+                    let r = tokio::time::timeout(Duration::from_secs(20), client_call(&mut client, Shape::Unary, vec![vec![1]], &vec![], false, &ch, |_| {})).await;
+                    match r {
+                        Err(_) => {
+                            trace.push("Call=HANG".into());
+                            bad = Some(("balanced-call-hang".into(), format!("after {trace:?} (endpoints registered: {live:?}) the call did not complete within 20 s")));
+                            break;
+                        }
+                        Ok(v) => match &v.error {
+                            None if v.msgs == vec![vec![42u8]] => trace.push("Call=ok".into()),
+                            None => {
+                                trace.push("Call=wrong".into());
+                                bad = Some(("balanced-call-wrong".into(), format!("after {trace:?} the call returned {:?}", v.msgs)));
+                                break;
+                            }
+                            Some(e) => {
+                                trace.push(format!("Call={:?}", e.code()));
+                                bad = Some(("balanced-call-failed".into(), format!("after {trace:?} (endpoints registered and reachable: {live:?}) the call failed with {}", crate::env::fmt_status(e))));
+                                break;
+                            }
+                        },
+                    }
+                }
+            }
+        }
+        (trace, bad)
+    });
+    let mut o = Outcome::new(format!("{trace:?}"));
+    o.nontrivial = trace.iter().any(|t| t.starts_with("Remove")) && trace.iter().any(|t| t.starts_with("Call"));
+    if let Some((k, why)) = bad {
+        o.violate(k, why);
+    }
+    o
+}
+
 pub fn property(tier: Tier) -> Property {
     let mut cases = vec![];
     let ss = scripts(tier.q(6, 9));
@@ -271,6 +402,16 @@ pub fn property(tier: Tier) -> Property {
         body,
     )
     .mins(200, 4, 50);
+    let bdepth = tier.q(5, 6);
+    let bal = Section::new(
+        "balance-discovery",
+        Config { hang_secs: 120, ..Default::default() },
+        "cases: every history of depth 5 (thorough 6) over {insert endpoint k, remove endpoint k (k in 0..2), call (only while the model has an endpoint registered)} on a fresh Channel::balance_channel (choices cost nothing; one case per first operation). A balanced channel connects inserted endpoints with tonic's own TCP connector, so this section alone runs over real loopback sockets in real time against two process-wide tonic servers on 127.0.0.1; the only verdict taken from it is completion: RefBalance = the set of registered keys; a call issued while that set is non-empty must return the backend's answer (bound: 20 s of real time, thousands of times a loopback call's latency) — whether an endpoint was registered before, removed and registered again must not matter. Non-trivial = the history removes an endpoint and makes a call.",
+        bal_menu(&[false; 2]).into_iter().map(|first| BalCase { first, depth: bdepth }).collect(),
+        |c: &BalCase| format!("first={:?} depth={}", c.first, c.depth),
+        bal_body,
+    )
+    .mins(200, 4, 50);
     Property {
         id: "C14",
         level: "fault_enumeration",
@@ -278,8 +419,9 @@ pub fn property(tier: Tier) -> Property {
         assumptions: vec![
             "faults land at quiescent points (every task parked), as the property's quantifier states; interleavings inside hyper/h2/tokio follow the deterministic current-thread order".into(),
             "'peer drops the connection' = the client's pipe end returns EOF/BrokenPipe and the server end sees EOF".into(),
+            "section balance-discovery uses real loopback TCP and real time (tonic offers no way to give a balanced channel a custom connector): the order in which the two backends are picked and the socket timing are not controlled; only completion of each call is judged".into(),
         ],
-        sections: vec![sec],
+        sections: vec![sec, bal],
         extra: Default::default(),
     }
 }
